@@ -236,6 +236,11 @@ class DocActions(object):
     for row_id in table.row_ids:
       new_column.set(row_id, old_column.raw_get(row_id))
 
+    if new_column.is_formula():
+      # Rows given explicit values earlier in this bundle, while this was a data column, were exempted
+      # from recalculation. As a formula column it must be calculated for all rows.
+      self._engine.prevent_recalc(new_column.node, table.row_ids, should_prevent=False)
+
     # Generate the undo action.
     self._engine.out_actions.undo.append(actions.ModifyColumn(table_id, col_id, undo_col_info))
 
